@@ -216,6 +216,8 @@ func runCheck(repo, prop, tier string, opt Options, verbose bool) int {
 	var samples []interface{}
 	var fnsUnder []string
 	solverTime := map[string]int64{}
+	byBackend := map[string]int{}
+	sampledFn := map[string]int{}
 	var bounded []string
 	os.MkdirAll(filepath.Join(outDir(), "replays", prop), 0o755)
 	violation := func(fn, ob string, o *ObResult, reason string) {
@@ -370,7 +372,10 @@ func runCheck(repo, prop, tier string, opt Options, verbose bool) int {
 			total++
 			if o.Status == "proved" {
 				discharged++
-				if len(samples) < 6 {
+				byBackend[o.Solver]++
+				// a few obligations written out, at most two per function, spread over the functions
+				if len(samples) < 12 && sampledFn[r.Key] < 2 && (len(samples) < 4 || !strings.HasPrefix(o.Name, "safe:")) {
+					sampledFn[r.Key]++
 					samples = append(samples, map[string]interface{}{"function": r.Key, "obligation": o.Name, "instances_paths": o.Instances, "solver": o.Solver, "ms": o.TimeMS})
 				}
 				continue
@@ -421,6 +426,7 @@ func runCheck(repo, prop, tier string, opt Options, verbose bool) int {
 		"known_refuted":            knownRefuted,
 		"bounded":                  bounded,
 		"solver_time_ms":           solverTime,
+		"discharged_by_backend":    byBackend,
 		"samples":                  samples,
 		"explanation":              propExplanation(prop),
 	}
@@ -457,10 +463,10 @@ func reportUndecidable(prop, tier string, seed int, t0 time.Time, reason string)
 func trustedBase() []string {
 	return []string{
 		"golang.org/x/tools go/ssa v0.29.0 (NaiveForm) represents the compiled Go source faithfully",
-		"xvc's symbolic semantics of the SSA instruction subset (DESIGN.md appendix D)",
+		"xvc's symbolic semantics of the SSA instruction subset (DESIGN.md, appendix)",
 		"z3 4.8.12 / z3 5.1.0 / cvc5 1.0 answer unsat only for unsatisfiable queries",
 		"Go int treated as a mathematical integer outside bit-vector mode (no overflow modelled)",
-		"slice values have value semantics (backing-array aliasing not modelled)",
+		"slice values have value semantics; backing-array sharing is excluded by the owned / safe:alias discipline, not modelled",
 		"trusted contracts for strings.Builder (write history), strings.TrimRight/TrimSpace/Split/Join/Repeat, fmt.Sprintf/Errorf, strconv.ParseInt/ParseFloat, maps.Copy, slices.Contains, append",
 	}
 }
@@ -469,7 +475,9 @@ func trustedBase() []string {
 // contracts (a loop was added, split off into a helper, or its invariant mentions locals that were renamed) -- as
 // opposed to code the engine has no semantics for, which stays a hard failure.
 func loopContractProblem(msg string) bool {
-	for _, k := range []string{"has no loop contract", "loop in inlined function", "neither invariant nor unroll", "contract names loop"} {
+	// "solver error": the verification condition could not even be expressed (ill-sorted term after a type of a local
+	// named in a loop clause changed) -- an engine limitation, not a verdict
+	for _, k := range []string{"has no loop contract", "loop in inlined function", "neither invariant nor unroll", "contract names loop", "solver error:"} {
 		if strings.Contains(msg, k) {
 			return true
 		}
